@@ -90,6 +90,8 @@ MUTANTS = [
         main_intensity = self.__formulate_top_expression()'''),
     ("c06_revert_name_tiebreak", "C06", HEL,
      "key=lambda s: (natural_sorting(s.name), s.name))", "key=lambda s: natural_sorting(s.name))"),
+    ("c06_revert_subsystem_converter", "C06", "src/ampform/helicity/align/dpd.py",
+     "        converter=_to_subsystem_id, validator=in_({1, 2, 3})\n", "        validator=in_({1, 2, 3})\n"),
     # ---- C15 ------------------------------------------------------------------------
     ("c15_revert_shallow_newargs", "C15", DEC,
      "    return tuple(getattr(instance, field.name) for field in _get_fields(instance))\n",
